@@ -414,7 +414,7 @@ FaultAt ==
 Retry ==
     /\ pc = "failed" /\ rd.tries < MaxRetry
     /\ pc' = "run" /\ k' = 0
-    /\ \E v \in Variants : plans' = {Tagged(PlanOf(v), v)}
+    /\ \E p \in plans : plans' = {Tagged(PlanOf(p.v), p.v)}
     /\ rd' = [rd EXCEPT !.tries = rd.tries + 1]
     /\ UNCHANGED <<lay, mem, op, msg, last>>
 
